@@ -11,3 +11,4 @@ import OapiVerif.Props.C01
 import OapiVerif.Props.C17
 import OapiVerif.Props.C02
 import OapiVerif.Props.C08
+import OapiVerif.Props.C19
